@@ -1,5 +1,96 @@
-import AlgoVerif.Model.C02Run
-/-! # C02 — property theorems (under construction) -/
+import AlgoVerif.Proofs.C02Chain
+import AlgoVerif.Proofs.C02OA
+import AlgoVerif.Proofs.C02LinDel
+/-!
+# C02 — the hash tables behave as a map for any hash function, options and history
+
+`run I ⟨t0, t0, g⟩ ops` is the trace of a history on two tables built by the constructor with the same
+options (every operation names its table; `equal` compares the two), `Spec.run` is the trace of the
+same history on two finite maps, `Agree` says: same length, every Model operation returned `ok` (no
+`panic`, no `diverge`) with the Spec's output (listings of `All` as multisets).
+
+Quantified: the key type (with decidable equality), the value type, `eqVal`, the hash function
+`hash : K → UInt64` (arbitrary), the shuffle `sh` and its generator state (any function returning
+permutations of `[0,n)`), valid options (what the constructor accepts, load-factor bounds default or
+tighter: `dmin ≤ minLF < maxLF ≤ dmax`), and the history.
+
+Helper lemmas: `Proofs/C02Lists`, `C02Num`, `C02Sim` (generic refinement), `C02Chain`, `C02OA`, `C02Lin`,
+`C02LinDel` (the cluster re-insertion loop of linear probing's `Delete`).
+-/
 open AlgoVerif AlgoVerif.C02
 
-theorem C02_placeholder : isPrime 31 = true := by decide
+/-- separate chaining (`chain_hash_table.go`) -/
+theorem C02_chain {K V σ : Type} [DecidableEq K] (hash : K → UInt64) (sh : Shuffle σ) (hsh : ShufflePerm sh)
+    (eqVal : V → V → Bool) (opts : Opts) (hv : Chain.ValidOpts opts) (g : σ) (ops : List (Op K V)) :
+    ∃ t0 : ChainTable K V, Chain.new opts = .ok t0 ∧
+      Agree (run (Chain.impl sh hash eqVal) ⟨t0, t0, g⟩ ops) (Spec.run eqVal ⟨[], []⟩ ops) := by
+  obtain ⟨t0, hnew, hinv, hempty⟩ := Chain.init_spec (V := V) hash opts hv
+  have hrel : Rel (Chain.Inv hash) Chain.Live t0 ([] : Spec.Map K V) :=
+    ⟨hinv, Spec.nodupKeys_nil, fun k v => by simp [hempty k v]⟩
+  exact ⟨t0, hnew, sim (Chain.correct hsh hash eqVal) ops ⟨t0, t0, g⟩ ⟨[], []⟩ (Or.inl trivial) hrel hrel⟩
+
+/-- linear probing (`linear_hash_table.go`), including `Delete` with re-insertion of the cluster -/
+theorem C02_linear {K V σ : Type} [DecidableEq K] (hash : K → UInt64) (sh : Shuffle σ) (hsh : ShufflePerm sh)
+    (eqVal : V → V → Bool) (opts : Opts) (hv : Lin.ValidOpts opts) (g : σ) (ops : List (Op K V)) :
+    ∃ t0 : LinTable K V, Lin.new opts = .ok t0 ∧
+      Agree (run (Lin.impl sh hash eqVal) ⟨t0, t0, g⟩ ops) (Spec.run eqVal ⟨[], []⟩ ops) := by
+  obtain ⟨t0, hnew, hinv, hempty⟩ := Lin.init_spec (V := V) hash opts hv
+  have hrel : Rel (Lin.Inv hash) Lin.Live t0 ([] : Spec.Map K V) :=
+    ⟨hinv, Spec.nodupKeys_nil, fun k v => by simp [hempty k v]⟩
+  exact ⟨t0, hnew, sim (Lin.correct hsh hash eqVal) ops ⟨t0, t0, g⟩ ⟨[], []⟩ (Or.inl trivial) hrel hrel⟩
+
+/-- quadratic probing (`quadratic_hash_table.go`) -/
+theorem C02_quadratic {K V σ : Type} [DecidableEq K] (hash : K → UInt64) (sh : Shuffle σ) (hsh : ShufflePerm sh)
+    (eqVal : V → V → Bool) (opts : Opts) (hv : OA.ValidOpts .quad opts) (g : σ) (ops : List (Op K V)) :
+    ∃ t0 : OATable K V, OA.new .quad opts = .ok t0 ∧
+      Agree (run (OA.impl sh hash eqVal) ⟨t0, t0, g⟩ ops) (Spec.run eqVal ⟨[], []⟩ ops) := by
+  obtain ⟨t0, hnew, hinv, hempty⟩ := OA.init_spec (V := V) hash .quad opts hv
+  have hrel : Rel (OA.Inv hash) OA.Live t0 ([] : Spec.Map K V) :=
+    ⟨hinv, Spec.nodupKeys_nil, fun k v => by simp [hempty k v]⟩
+  exact ⟨t0, hnew, sim (OA.correct hsh hash eqVal) ops ⟨t0, t0, g⟩ ⟨[], []⟩ (Or.inl trivial) hrel hrel⟩
+
+/-- double hashing (`double_hash_table.go`) -/
+theorem C02_double {K V σ : Type} [DecidableEq K] (hash : K → UInt64) (sh : Shuffle σ) (hsh : ShufflePerm sh)
+    (eqVal : V → V → Bool) (opts : Opts) (hv : OA.ValidOpts .dbl opts) (g : σ) (ops : List (Op K V)) :
+    ∃ t0 : OATable K V, OA.new .dbl opts = .ok t0 ∧
+      Agree (run (OA.impl sh hash eqVal) ⟨t0, t0, g⟩ ops) (Spec.run eqVal ⟨[], []⟩ ops) := by
+  obtain ⟨t0, hnew, hinv, hempty⟩ := OA.init_spec (V := V) hash .dbl opts hv
+  have hrel : Rel (OA.Inv hash) OA.Live t0 ([] : Spec.Map K V) :=
+    ⟨hinv, Spec.nodupKeys_nil, fun k v => by simp [hempty k v]⟩
+  exact ⟨t0, hnew, sim (OA.correct hsh hash eqVal) ops ⟨t0, t0, g⟩ ⟨[], []⟩ (Or.inl trivial) hrel hrel⟩
+
+/-! ## the hypotheses are satisfiable, on non-trivial states -/
+section NonVacuity
+
+/-- the identity shuffle is a shuffle -/
+def idShuffle : Shuffle Unit := fun g n => (List.range n, g)
+
+example : ShufflePerm idShuffle := fun _ _ => List.Perm.refl _
+
+/-- default options and tighter explicit ones are valid -/
+example : OA.ValidOpts .quad {} := ⟨Or.inl rfl, by constructor <;> decide⟩
+example : OA.ValidOpts .dbl ⟨61, ⟨1, 4⟩, ⟨3, 8⟩⟩ := ⟨Or.inr (by decide), by constructor <;> decide⟩
+example : Chain.ValidOpts ⟨8, ⟨3, 1⟩, ⟨5, 1⟩⟩ := ⟨Or.inr (by decide), by constructor <;> decide⟩
+example : Lin.ValidOpts ⟨64, ⟨3, 8⟩, ⟨7, 16⟩⟩ := ⟨Or.inr (by decide), by constructor <;> decide⟩
+
+/-- linear probing, constant hash: a cluster of four keys; deleting the first one moves the other three
+back by one slot each (the re-insertion loop), and every key is still found. -/
+example : (match (Lin.new {} : Outcome (LinTable Int Int)) with
+    | .ok t0 => run (Lin.impl idShuffle (fun _ => 5) (fun a b => a == b)) ⟨t0, t0, ()⟩
+        [.put false 1 10, .put false 2 20, .put false 3 30, .put false 4 40, .delete false 1,
+         .get false 4, .get false 1, .size false, .all false]
+    | _ => []) =
+    [.ok .unit, .ok .unit, .ok .unit, .ok .unit, .ok (.val (some 10)),
+     .ok (.val (some 40)), .ok (.val none), .ok (.int 3), .ok (.list [(2, 20), (3, 30), (4, 40)])] := by
+  decide
+
+/-- D2's witness on the Model as it is now, with a constant hash function: colliding keys, a tombstone
+that is revived, and the count is right (before the fix the last output was 1). -/
+example : (match (OA.new .quad {} : Outcome (OATable Int Int)) with
+    | .ok t0 => run (OA.impl idShuffle (fun _ => 5) (fun a b => a == b)) ⟨t0, t0, ()⟩
+        [.put false 1 10, .put false 2 20, .delete false 1, .put false 1 11, .size false, .get false 1]
+    | _ => []) =
+    [.ok .unit, .ok .unit, .ok (.val (some 10)), .ok .unit, .ok (.int 2), .ok (.val (some 11))] := by
+  decide
+
+end NonVacuity
